@@ -90,6 +90,18 @@ def instantiate_param_obj_contract():
                 st.heap[r.oid].fields = dict(src.fields)
                 st.ghost["shallow_copies"] = st.ghost.get("shallow_copies", []) + [(x, r)]
                 return [(st, r)]
+            if isinstance(x, Ref) and st.heap[x.oid].kind == "dict":
+                src = st.heap[x.oid]
+                r = I.alloc_dict(st, cls=src.cls, keys=src.keys, vals=src.vals, ckeys=None if src.ckeys is None else list(src.ckeys))
+                for f, v in src.fields.items():
+                    st.heap[r.oid].fields[f] = v
+                return [(st, r)]
+            if isinstance(x, Ref) and st.heap[x.oid].kind == "list":
+                src = st.heap[x.oid]
+                r = I.alloc_list(st, src.seq, cls=src.cls)
+                if src.fields.get("$items") is not None:
+                    st.heap[r.oid].fields["$items"] = list(src.fields["$items"])
+                return [(st, r)]
             t = I.term(x)
             c = copy_of(t)
             I.U.well_typed(c)
@@ -121,6 +133,7 @@ def instantiate_param_obj_contract():
         st.heap[p.oid].fields["watchers"] = w
         st.heap[p.oid].init["watchers"] = w
         owner = Sym(U.fresh("instance"))
+        st.pc.append(z3.Not(mutable(owner.t)))      # the owner is a Parameterized instance, not a container
         m = I.src.modules[MOD]
         fd = m.functions["_instantiate_param_obj"]
         fv = FuncV("repo", module=m, cls=None, node=fd, self=None, qual="_instantiate_param_obj")
